@@ -244,14 +244,18 @@ TRANSLATORS = {"scoring": ([("ScoringGen.v", "scoring")], "ScoringGenProof.v"),
                "copeland": ([("CopelandGen.v", "copeland")], "CopelandGenProof.v"),
                "stv": ([("ScoringGen.v", "scoring"), ("StvGen.v", "stv")], "StvGenProof.v"),
                "elicitor": ([("ElicitorGen.v", "elicitor")], "ElicitorGenProof.v"),
-               "bsearch": ([("BsearchGen.v", "bsearch")], "BsearchGenProof.v")}
+               "bsearch": ([("BsearchGen.v", "bsearch")], "BsearchGenProof.v"),
+               "rootn": ([("RootnGen.v", "rootn")], "RootnGenProof.v"),
+               "flow": ([("FlowGen.v", "flow")], "FlowGenProof.v"),
+               # a file name with translate function None is a committed proof file the last one builds on
+               "bip": ([("FlowGen.v", "flow"), ("FlowGenProof.v", None), ("BipGen.v", "flow2")], "BipGenProof.v")}
 
 def translator_obligation(name):
     """regenerate the model of <name> from /repo's current source (harness/translate.py), compile it, and re-check the
     committed equivalence proofs coq/gen/<..>Proof.v against it. Same result shape as proof_obligations."""
     from . import translate
     gens, proof = TRANSLATORS[name]
-    res = dict(ok=False, obligations=0, discharged=0, theorems=[], log="", file="coq/gen/%s (against %s regenerated from %s)" % (proof, ", ".join(g for g, _ in gens), REPO))
+    res = dict(ok=False, obligations=0, discharged=0, theorems=[], log="", file="coq/gen/%s (against %s regenerated from %s)" % (proof, ", ".join(g for g, f in gens if f), REPO))
     gdir = os.path.join(WORK, "gen_%s_%d" % (name, os.getpid()))
     shutil.rmtree(gdir, ignore_errors=True)
     os.makedirs(gdir)
@@ -260,6 +264,13 @@ def translator_obligation(name):
         res["obligations"] = len(re.findall(r"^\s*(?:Theorem|Lemma|Corollary)\s+([A-Za-z0-9_']+)", strip_coq_comments(psrc), re.M))
         h = hashlib.sha256()
         for gen, fnname in gens:
+            if fnname is None:
+                shutil.copy(os.path.join(COQ, "gen", gen), os.path.join(gdir, gen))
+                rc, out = sh("timeout 300 coqc -R %s SCK -R . SCKGen %s" % (COQ, gen), timeout=320, cwd=gdir)
+                if rc != 0:
+                    res["log"] = "committed proof %s does not check against the regenerated model:\n" % gen + out[-2000:]
+                    return res
+                continue
             try:
                 text = getattr(translate, "translate_" + fnname)(REPO)
             except translate.TErr as e:
